@@ -201,7 +201,7 @@ def match_known(key, known, prop):
 def write_replay(prop, key, v, tier, seed):
     from mc import world
 
-    d = os.path.join(VERIF, "replays", prop)
+    d = os.path.join(os.environ.get("VERIF_REPLAY_DIR", os.path.join(VERIF, "replays")), prop)
     os.makedirs(d, exist_ok=True)
     h = hashlib.md5(key.encode()).hexdigest()[:12]
     path = os.path.join(d, h + ".json")
@@ -315,8 +315,9 @@ def finish(ctx, mod, t0, coverage_extra=None, assumptions=None, exhaustive=True)
         "wall_s": round(time.time() - t0, 3),
         "violations": len(new),
     }
-    os.makedirs(os.path.join(VERIF, "evidence"), exist_ok=True)
-    path = os.path.join(VERIF, "evidence", prop + ".json")
+    evdir = os.environ.get("VERIF_EVIDENCE_DIR", os.path.join(VERIF, "evidence"))  # seeded-change runs write elsewhere
+    os.makedirs(evdir, exist_ok=True)
+    path = os.path.join(evdir, prop + ".json")
     with open(path, "w") as f:
         json.dump(ev, f, indent=1, sort_keys=True)
     err = validate_evidence(path)
